@@ -152,6 +152,8 @@ func matchesDC(s *scen, raw string) bool {
 		return strings.Contains(raw, "s.example")
 	case "other":
 		return strings.Contains(raw, "elsewhere.example")
+	case "exact-url": // a full URL with a path matches by string equality only, not its whole host
+		return raw == H+"/in1"
 	}
 	return false
 }
@@ -252,7 +254,7 @@ func scenarios(tier string) []scen {
 		{"nested-playlists", H + "/pn"}, {"nested-json", H + "/pj"}, {"nested-json-behind-redirects", H + "/pjr"}, {"page-lists-itself", H + "/selfpage"},
 		{"always-500", H + "/boom"}, {"429-then-200", H + "/limited"}, {"hub", H + "/hub"},
 	}
-	dcs := map[string][]string{"off": nil, "site": {"s.example"}, "other": {"elsewhere.example"}}
+	dcs := map[string][]string{"off": nil, "site": {"s.example"}, "other": {"elsewhere.example"}, "exact-url": {H + "/in1"}}
 	var out []scen
 	for _, f := range fam {
 		for _, mr := range []int{0, 1, 2, 3} {
@@ -273,6 +275,12 @@ func scenarios(tier string) []scen {
 					}
 				}
 			}
+		}
+	}
+	// --domains-crawl given as one full URL: only that URL matches, the other links of its host do not
+	for _, mh := range []int{0, 1, 2} {
+		for _, h0 := range []int{0, 1, 2} {
+			out = append(out, scen{Family: "hub", Seed: H + "/hub", SeedHops: h0, MaxRedirect: 1, MaxRetry: 0, MaxHops: mh, DC: "exact-url", Patterns: dcs["exact-url"]})
 		}
 	}
 	// large limits (the defaults are --max-retry 5, --max-redirect 20): the bounds must hold for every value,
